@@ -1655,3 +1655,82 @@ Proof.
     repeat split; auto. now left.
   - now apply description_block_fine.
 Qed.
+
+Definition page_words_fitb (sty : styles) (W : Z) (l : layout) : bool :=
+  forallb (fun x => no_ltb (elem_text (snd x)) ||
+                    words_fitb (wrap_width W (align_vis sty l 0) (fst x) (vis_of sty (elem_label (snd x))) (snd x)) (elem_text (snd x))) l.
+Lemma page_words_fitb_ok sty W l : page_words_fitb sty W l = true -> page_words_fit sty W l.
+Proof.
+  unfold page_words_fitb, page_words_fit. rewrite forallb_forall, Forall_forall. intros H x Hx. specialize (H x Hx).
+  apply orb_prop in H as [H|H]; [left; now apply no_ltb_ok|right; now apply words_fitb_ok].
+Qed.
+
+(* The help pages of a configuration whose descriptions hold no "<": they render - and fit - on every terminal that has room
+   for the labels and on which no word that holds a tag has to be broken. *)
+Local Open Scope Z_scope.
+Theorem command_help_renders_and_fits_plain_lemma W f app_name ch aliases help subs :
+  f_kind f = FPlain ->
+  (match app_name with Some n => no_nl n | None => True end) -> Forall no_nl (chain_names ch) ->
+  Forall arg_one_line (chain_args ch) -> Forall opt_one_line (own_opts ch) -> Forall opt_one_line (base_opts ch) ->
+  Forall sub_one_line subs ->
+  (match app_name with Some n => plain n | None => True end) -> Forall plain (chain_names ch) ->
+  Forall arg_fine (chain_args ch) -> Forall opt_fine (own_opts ch) -> Forall opt_fine (base_opts ch) ->
+  Forall sub_fine subs -> Forall no_lt aliases -> no_lt (odesc help) ->
+  needed_width_for (f_styles f) (command_page (f_styles f) app_name ch aliases help subs) <= W ->
+  page_words_fit (f_styles f) W (command_page (f_styles f) app_name ch aliases help subs) ->
+  exists s, render_page W f (command_page (f_styles f) app_name ch aliases help subs) = Ok s
+            /\ Forall (fun ln => zlen ln <= W - 1) (split_on 10%N s).
+Proof.
+  intros Hk O1 O2 O3 O4 O5 O6 F1 F2 F3 F4 F5 F6 F7 F8 HW Hfit.
+  apply page_renders_and_fits_plain_lemma; [exact Hk|now apply command_page_one_line|exact HW|].
+  apply fine_ok; [now apply command_page_fine|exact Hfit].
+Qed.
+Theorem command_help_renders_and_fits_ansi_lemma W f app_name ch aliases help subs :
+  is_ansi f ->
+  (match app_name with Some n => no_nl n | None => True end) -> Forall no_nl (chain_names ch) ->
+  Forall arg_one_line (chain_args ch) -> Forall opt_one_line (own_opts ch) -> Forall opt_one_line (base_opts ch) ->
+  Forall sub_one_line subs ->
+  (match app_name with Some n => plain n | None => True end) -> Forall plain (chain_names ch) ->
+  Forall arg_fine (chain_args ch) -> Forall opt_fine (own_opts ch) -> Forall opt_fine (base_opts ch) ->
+  Forall sub_fine subs -> Forall no_lt aliases -> no_lt (odesc help) ->
+  clean_layout (command_page (f_styles f) app_name ch aliases help subs) ->
+  needed_width_for (f_styles f) (command_page (f_styles f) app_name ch aliases help subs) <= W ->
+  page_words_fit (f_styles f) W (command_page (f_styles f) app_name ch aliases help subs) ->
+  exists s, render_page W f (command_page (f_styles f) app_name ch aliases help subs) = Ok s
+            /\ Forall (fun ln => zlen (strip_sgr ln) <= W - 1) (split_on 10%N s).
+Proof.
+  intros Hk O1 O2 O3 O4 O5 O6 F1 F2 F3 F4 F5 F6 F7 F8 Hc HW Hfit.
+  apply page_renders_and_fits_ansi_lemma; [exact Hk|now apply command_page_one_line|exact Hc|exact HW|].
+  apply fine_ok; [now apply command_page_fine|exact Hfit].
+Qed.
+Theorem application_help_renders_and_fits_plain_lemma W f app_name display version gopts cmds help :
+  f_kind f = FPlain ->
+  (match app_name with Some n => no_nl n | None => True end) -> Forall opt_one_line gopts -> Forall (fun c => no_nl (ac_name c)) cmds ->
+  (match app_name with Some n => plain n | None => True end) ->
+  no_lt (odesc display) -> plain (odesc version) -> Forall opt_fine gopts ->
+  Forall (fun c => plain (ac_name c) /\ no_lt (ac_desc c)) cmds -> no_lt (odesc help) ->
+  needed_width_for (f_styles f) (application_page (f_styles f) app_name display version gopts cmds help) <= W ->
+  page_words_fit (f_styles f) W (application_page (f_styles f) app_name display version gopts cmds help) ->
+  exists s, render_page W f (application_page (f_styles f) app_name display version gopts cmds help) = Ok s
+            /\ Forall (fun ln => zlen ln <= W - 1) (split_on 10%N s).
+Proof.
+  intros Hk O1 O2 O3 F1 F2 F3 F4 F5 F6 HW Hfit.
+  apply page_renders_and_fits_plain_lemma; [exact Hk|now apply application_page_one_line|exact HW|].
+  apply fine_ok; [now apply application_page_fine|exact Hfit].
+Qed.
+Theorem application_help_renders_and_fits_ansi_lemma W f app_name display version gopts cmds help :
+  is_ansi f ->
+  (match app_name with Some n => no_nl n | None => True end) -> Forall opt_one_line gopts -> Forall (fun c => no_nl (ac_name c)) cmds ->
+  (match app_name with Some n => plain n | None => True end) ->
+  no_lt (odesc display) -> plain (odesc version) -> Forall opt_fine gopts ->
+  Forall (fun c => plain (ac_name c) /\ no_lt (ac_desc c)) cmds -> no_lt (odesc help) ->
+  clean_layout (application_page (f_styles f) app_name display version gopts cmds help) ->
+  needed_width_for (f_styles f) (application_page (f_styles f) app_name display version gopts cmds help) <= W ->
+  page_words_fit (f_styles f) W (application_page (f_styles f) app_name display version gopts cmds help) ->
+  exists s, render_page W f (application_page (f_styles f) app_name display version gopts cmds help) = Ok s
+            /\ Forall (fun ln => zlen (strip_sgr ln) <= W - 1) (split_on 10%N s).
+Proof.
+  intros Hk O1 O2 O3 F1 F2 F3 F4 F5 F6 Hc HW Hfit.
+  apply page_renders_and_fits_ansi_lemma; [exact Hk|now apply application_page_one_line|exact Hc|exact HW|].
+  apply fine_ok; [now apply application_page_fine|exact Hfit].
+Qed.
